@@ -10,8 +10,8 @@ LEVEL = 'exploration'
 
 def sizes(ctx):
     if ctx.tier == 'quick':
-        return dict(sched_inputs=40, random_programs=14, inputs=10)
-    return dict(sched_inputs=300, random_programs=200, inputs=40)
+        return dict(sched_inputs=120, random_programs=40, inputs=10)
+    return dict(sched_inputs=600, random_programs=300, inputs=40)
 
 
 def tagged_in_recursion(prog, tagged):
